@@ -87,7 +87,13 @@ def gen_case(seed: int, idx: int) -> zd.ZDir:
     rng = rng_for(ID, seed, idx)
     opts = pg.GenOpts(max_items=3, max_blocks=2, allow_mod_without_zid=False, irregular_gap=True, p_zid=rng.choice([0.0, 0.3, 0.5, 0.8, 1.0]), p_ldate=0.4,
                       p_foreign=0.08, foreign_pool=pg.FOREIGN_WORDS + pg.EXOTIC_SEPARATOR_WORDS)
-    return zd.gen_zdir(rng, opts)
+    z = zd.gen_zdir(rng, opts)
+    # items whose FIRST LINE is nothing but their own YYYY-MM-DD create date (the text follows on continuation lines)
+    for _rel, p in z.pages.items():
+        for _b, it in pg.iter_items(p):
+            if it.zid is None and it.ldate is not None and it.cont and rng.random() < 0.35:
+                it.words = []
+    return z
 
 
 def read_files(root: Path) -> dict:
